@@ -75,8 +75,26 @@ def roundtrip_exempt(params, v):
     a non-injective compu method cannot return the original value)"""
     dyn_seen = False
     g = cc.Gen(None)
+    cursor = 0
     for p in params:
         kd = p["kind"]
+        if p["bytepos"] is not None and p["bytepos"] < cursor:
+            # an object positioned on top of (or in front of) earlier ones: an overlapping layout, which is only
+            # reported when both objects actually write bits
+            return "explicit byte position in front of the end of an earlier object"
+        if p["bytepos"] is not None:
+            cursor = p["bytepos"]
+        sz = None
+        if kd["k"] in ("coded", "nrc"):
+            sz = kd["dct"]["bl"] if kd["dct"]["k"] == "std" else None
+        elif kd["k"] == "reserved":
+            sz = kd["bl"]
+        elif kd["k"] == "matchreq":
+            sz = 8 * kd["len"]
+        else:
+            b = g.static_size(kd["dop"])
+            sz = None if b is None else (kd["dop"]["dct"]["bl"] if kd["dop"]["k"] == "simple" else 8 * b)
+        cursor += ((p["bitpos"] or 0) + (sz or 0) + 7) // 8
         if dyn_seen and p["bytepos"] is not None:
             # ODX: the position of an object behind one of variable size cannot be given statically
             return "explicit byte position behind a dynamically sized object"
@@ -104,6 +122,11 @@ def _dop_exempt(d, v):
         c = d["compu"]
         if c["k"] == "linear" and (c["num"] == 0 or abs(c["num"]) < abs(c["den"])):
             return "non-injective compu method"
+        if c["k"] == "linear" and isinstance(v, int) and not isinstance(v, bool):
+            from fractions import Fraction
+            x = round(Fraction(v * c["den"] - c["off"], c["num"]))
+            if round(Fraction(c["off"] + c["num"] * x, c["den"])) != v:
+                return "physical value outside the image of the compu method (rounded by definition)"
         return None
     if k == "struct":
         return roundtrip_exempt(d["params"], v if isinstance(v, dict) else {})
@@ -586,6 +609,16 @@ def known_tags(c, e, bad):
 
 
 # ---------------------------------------------------------------------------
+def zero_size_struct(params):
+    """an empty structure (no parameters, no BYTE-SIZE) occupies nothing wherever it is positioned"""
+    for p in params:
+        kd = p["kind"]
+        if kd["k"] in ("value", "physconst") and kd["dop"]["k"] == "struct":
+            if (not kd["dop"]["params"] and not kd["dop"]["bs"]) or zero_size_struct(kd["dop"]["params"]):
+                return True
+    return False
+
+
 def check_static(ck, c, model_ok):
     st = c.static
     impl = st["impl"]
@@ -603,7 +636,7 @@ def check_static(ck, c, model_ok):
         if ei[0] != 0 or not isinstance(e["value"], dict):
             continue
         pdu = bytes(ei[1])
-        if sb is not None and not ei[2] and 8 * len(pdu) != sb:
+        if sb is not None and not ei[2] and 8 * len(pdu) != sb and not zero_size_struct(c.params):
             tags = known_tags(c, e, "static length")
             kf = ck.match_known(tags)
             if kf:
